@@ -211,6 +211,30 @@ func frameSet(gs []mon.G) string {
 	return strings.Join(ks, ",")
 }
 
+// entrySet names the public stream calls in which harness goroutines are parked
+// (the stable part of a deadlock: who waits in which API call).
+func entrySet(gs []mon.G) string {
+	set := map[string]bool{}
+	for _, g := range gs {
+		for _, f := range g.Frames {
+			if strings.Contains(f, "schema.(*StreamReader") || strings.Contains(f, "schema.(*StreamWriter") {
+				f = stripGen(f)
+				set[strings.TrimPrefix(f[strings.LastIndex(f, "(*"):], "(*")] = true
+				break
+			}
+		}
+	}
+	var ks []string
+	for k := range set {
+		ks = append(ks, strings.ReplaceAll(k, ")", ""))
+	}
+	sort.Strings(ks)
+	if len(ks) == 0 {
+		return frameSet(gs)
+	}
+	return strings.Join(ks, "+")
+}
+
 func panicSig(p *mon.Panic) string {
 	f := p.FirstFrame(einoPfx)
 	if f == "" {
@@ -225,6 +249,7 @@ type stats struct {
 	panicItems, convErrs, srcErrs, ambiguous, copyCons int64
 	leakRuns, settleFail                               int64
 	endsClosedEarly                                    int64
+	filterDelayed                                      int64
 }
 
 // judge evaluates one execution. It reports violations through rep and returns
@@ -247,7 +272,7 @@ func judge(t *tree, out *runOut, rep *mon.Reporter) (st stats, order string) {
 		for _, g := range out.stuck {
 			b.WriteString(g.Raw + "\n\n")
 		}
-		rep.Violation("C08/deadlock/"+frameSet(out.stuck), "process quiescent while writers/readers of the tree are unfinished (every goroutine parked, no timer pending):\n"+b.String(), w)
+		rep.Violation("C08/deadlock/"+entrySet(out.stuck), "parked in: "+frameSet(out.stuck)+"\nprocess quiescent while writers/readers of the tree are unfinished (every goroutine parked, no timer pending):\n"+b.String(), w)
 		return
 	case mon.Inconclusive:
 		rep.Inconclusive("wall-clock watchdog fired while goroutines were still active (not quiescent)")
@@ -445,9 +470,23 @@ func judge(t *tree, out *runOut, rep *mon.Reporter) (st stats, order string) {
 				}
 			}
 			if accepted > allowed {
-				rep.Violation("C08/close/not-told-within-bound/"+kind,
-					fmt.Sprintf("writer of source %d (cap %d, %d forwarder goroutine(s) downstream): the Close of the last of its %d derived readers returned at logical time %d; of the %d Send calls started after that, %d were still accepted (allowed: %d). sends=%v",
-						s.ID, s.Cap, F, len(ends), T, after, accepted, allowed, lg.sends), w)
+				// Sends absorbed by a forwarder whose converter dropped the item (no send attempt,
+				// so the forwarder never looked at the closed signal) are told apart: if they
+				// explain the excess, it is the filtering-forwarder defect, else a plain bound violation.
+				dropped := 0
+				for i, r := range lg.sends {
+					if r.T0 > T && !r.Closed && m.fdrop[s.ID][int32(i)] {
+						dropped++
+					}
+				}
+				sig := "C08/close/not-told-within-bound/" + kind
+				if F > 0 && accepted-dropped <= allowed {
+					sig = "C08/close/not-told-while-converter-drops-items/forwarded"
+					st.filterDelayed++
+				}
+				rep.Violation(sig,
+					fmt.Sprintf("writer of source %d (cap %d, %d forwarder goroutine(s) downstream): the Close of the last of its %d derived readers returned at logical time %d; of the %d Send calls started after that, %d were still accepted (allowed: %d = cap + 6 per forwarder; %d of the accepted items are dropped as no-value by a converter below a forwarder). sends=%v",
+						s.ID, s.Cap, F, len(ends), T, after, accepted, allowed, dropped, lg.sends), w)
 			}
 		}
 		if !m.canPanic[s.ID] {
